@@ -163,6 +163,15 @@ class EntityInfo:
 
         self.non_dynamic_ports = None
 
+    def _restore_port_defaults(self):
+        # Port objects are persistent (declared in the class body and shared
+        # with derived entities). Entity.__init__ removes the default of
+        # ports that are driven by an instantiated entity, undo that
+        # so the change does not leak into the following builds.
+        for port in self.ports.values():
+            if hasattr(port, "_cohdl_declared_default"):
+                port._default = port._cohdl_declared_default
+
     def add_port(self, name, port):
         #
         # this method is required for board definition classes
@@ -201,6 +210,7 @@ class Entity(Block):
             if isinstance(value, Port):
                 ports[key] = value
                 value._name = key
+                value._cohdl_declared_default = value._default
             elif isinstance(value, Generic):
                 generics[key] = value
                 value._name = key
@@ -248,6 +258,7 @@ class Entity(Block):
             # the port info might be inspected after the build.
             # For example when constructing simulation objects.
             info._discard_dynamic_ports()
+            info._restore_port_defaults()
 
             global _block_stack
 
